@@ -14,7 +14,7 @@ RENDER_KNOWN_DROPPED = {"http2", "map", "upstream"}
 # clauses of the big judge that the small structural judge Render.wfDirs restates (subject of render_wellformed_fragment)
 WF_CLAUSES = {"duplicate-listen-server-name", "duplicate-default-server", "duplicate-location", "match-key-missing",
               "redirect-target-missing", "variable-name-not-lexable", "duplicate-variable-definition", "bad-split-entry",
-              "bad-percent", "percent-total", "unknown-variable", "bad-variable-syntax"}
+              "bad-percent", "percent-total", "unknown-variable", "bad-variable-syntax", "bad-listen"}
 
 
 def _wf_relevant(c, d):
@@ -145,7 +145,8 @@ def run(ctx):
         big = {(i["c"], i["d"]) for i in issues if _wf_relevant(i["c"], i["d"])}
         small = {(i["c"], i["d"]) for i in v.get("wf", [])}
         wf_issues += len(small)
-        if big == small:
+        # bad-listen: the big judge also sees stream.conf and the static files, wfDirs only http.conf
+        if big == small or (small <= big and all(c == "bad-listen" for c, _ in big - small)):
             wf_agree += 1
         else:
             wf_disagree.append({"id": case["id"], "only_big_judge": sorted(big - small)[:3], "only_wfDirs": sorted(small - big)[:3]})
@@ -175,6 +176,10 @@ def run(ctx):
         ctx.broken(f"Lean PCRE-subset parser rejects a regex Go regexp/syntax accepts: {rx}")
     for d in namediffs[:3]:
         ctx.broken(f"Mangle model and the real naming functions disagree: {d}", replay=d)
+    # HTTPS + TLS(passthrough) listener on one port (HTTPS servers behind a unix socket) must occur under every IP family
+    share = {f: tag_hist.get("https-tls-share-port-" + f, 0) for f in ("ipv4", "ipv6", "dual")}
+    if evaluated >= 500 and min(share.values()) == 0:
+        ctx.broken(f"generator coverage: no scenario with an HTTPS and a TLS listener on one port for some IP family: {share}")
     if evaluated and clean == 0:
         ctx.broken("no generated file set passed the judge: generator or judge degenerate")
     for d in wf_disagree[:3]:
@@ -205,6 +210,7 @@ def run(ctx):
         "wfDirs_vs_big_judge_file_sets_agreeing": wf_agree,
         "wfDirs_vs_big_judge_disagreements": len(wf_disagree),
         "wfDirs_issues_on_real_files": wf_issues,
+        "https_tls_share_port_by_ip_family": share,
         "render_tie": frag,
     }, assumptions=[
         "NGINX's configuration-time behaviour is the Lean model Spec/WellFormedConf + Model/NginxLex/NginxParse (no nginx binary "
@@ -275,7 +281,8 @@ def _render_stream(ctx):
                 ctx.broken("Model/Render and the real generator disagree (parsed http.conf / matches.json ≠ render (genR s)): "
                            + what[:900], replay=rep({"diff": r.get("diff"), "matchesDiff": r.get("matchesDiff")}))
         # the theorem render_wellformed_fragment, executed; and the same judge on the real file
-        if r.get("wfModel") and r.get("namesSafe"):
+        frag["ports_ok"] += bool(r.get("portsOK"))
+        if r.get("wfModel") and r.get("namesSafe") and r.get("portsOK"):
             frag["theorem_falsified"] += 1
             ctx.broken(f"render_wellformed_fragment is false on a generated input: {r['wfModel'][:3]}", kind="obligation",
                        replay=rep({"issues": r["wfModel"]}))
